@@ -34,12 +34,16 @@ OpPool == {
   \* member names that look like integers
   MkOp("addne", <<O, N1>>, <<>>, IntV(5)),   MkOp("addne", <<O, N9>>, <<>>, VArr),
   MkOp("add", <<O, N1>>, <<>>, VObj),        MkOp("add", <<O, N1, A, Dash>>, <<>>, IntV(6)),
-  MkOp("replace", <<O, N0>>, <<>>, IntV(7)), MkOp("remove", <<O, N1>>, <<>>, Null) }
+  MkOp("replace", <<O, N0>>, <<>>, IntV(7)), MkOp("remove", <<O, N1>>, <<>>, Null),
+  \* an index equal to the array length, a move into the source's own child, a member whose name starts with '#'
+  MkOp("add", <<R, <<50>>>>, <<>>, IntV(9)), MkOp("move", <<R, N0, N0>>, <<R, N0>>, Null), MkOp("copy", <<R, <<49>>>>, <<R, N0>>, Null),
+  MkOp("addne", <<O, <<35, 49>>>>, <<>>, IntV(8)), MkOp("add", <<X, <<120, 32, 121>>>>, <<>>, IntV(5)) }
 
 Docs == { Obj(<<R>>, <<Arr(<<IntV(1), IntV(2)>>)>>),
           Obj(<<X, R>>, <<Obj(<<A>>, <<Arr(<<>>)>>), Arr(<<Obj(<<A>>, <<Arr(<<>>)>>)>>)>>),
           Obj(<<X, Y, R>>, <<Arr(<<Arr(<<IntV(9)>>)>>), IntV(0), Arr(<<>>)>>),
-          Obj(<<O, R>>, <<Obj(<<N1, N0>>, <<IntV(1), Arr(<<>>)>>), Arr(<<IntV(0)>>)>>) }
+          Obj(<<O, R>>, <<Obj(<<N1, N0>>, <<IntV(1), Arr(<<>>)>>), Arr(<<IntV(0)>>)>>),
+          Obj(<<R>>, <<Arr(<<Arr(<<IntV(1)>>), Arr(<<IntV(2)>>)>>)>>) }
 Routes == {"document", "builder", "asdicts"}
 
 \* what printing the patch must give: the operations it was built from
